@@ -4,6 +4,7 @@
   interpreted answer; the read count is compared with the implementation by correspondence).
 -/
 import Snmp.Model.Ops
+import Snmp.Props.C06
 namespace Snmp.Props.C07
 open Snmp Snmp.Ops
 
@@ -180,5 +181,23 @@ example : recv (.v2c [112]) 7 (.ok ⟨1, [112], ⟨7, 0, 0, []⟩⟩) = .ok ⟨7
   simp [recv, mpmDecode, forcePdu, bind, Except.bind, pure, Except.pure]
 example : recv (.v2c [112]) 7 (.ok ⟨1, [112], ⟨8, 0, 0, []⟩⟩) = .error .invalidResponseId := by
   simp [recv, mpmDecode, forcePdu, bind, Except.bind, throw, throwThe, MonadExceptOf.throw]
+
+/-- **From the octets on.**  Whatever community response message an agent writes — any PDU class, any
+    bindings, any admissible length form at every TLV (`Glue.WritesMsg`) — with the expected version and
+    community and no error-status: if the request-id it carries is not the id of the request sent,
+    every operation of the client (decoder, unpacking glue, wrapper checks, id check) raises
+    `InvalidResponseId`; if it is, `_send` hands on exactly the PDU the agent wrote. -/
+theorem C07_from_wire (e : Ber.Enc) (m : RespMsg) (cls : String) (hw : Glue.WritesMsg e m cls) (community : Bytes) (rid : Int)
+    (hver : m.version = 1) (hcom : m.community = community) (hes : m.pdu.errorStatus = 0)
+    (fuel depth : Nat) (hwd : e.width ≤ fuel) (hd : e.depth ≤ depth) :
+    (m.pdu.requestId ≠ rid → recv (.v2c community) rid (C06.fromWire e.bytes fuel depth) = .error .invalidResponseId) ∧
+    (m.pdu.requestId = rid → recv (.v2c community) rid (C06.fromWire e.bytes fuel depth) = .ok m.pdu) := by
+  unfold C06.fromWire
+  rw [C06.C06_message_readback e m cls hw fuel depth hwd hd]
+  constructor
+  · intro hne
+    exact C07_mismatch (.v2c community) rid m (by simp [mpmDecode, hver, hcom]) hes hne
+  · intro heq
+    simp [recv, mpmDecode, forcePdu, hver, hcom, hes, heq, bind, Except.bind, pure, Except.pure]
 
 end Snmp.Props.C07
